@@ -92,3 +92,91 @@ where
     }
     BfsResult { states: states.len() as u64, all_states: states, transitions, max_depth: depth, fixpoint, violation: None }
 }
+
+
+/// Variant for objects whose concrete state space may be unbounded although their BEHAVIOUR is
+/// finite-state (e.g. a cipher object that also carries a running byte counter): the visited set
+/// is keyed by `key(state)` (the reference model's state); when a second path reaches an already
+/// visited key, `same(old, new)` must confirm that the two concrete states behave alike (a
+/// bounded look-ahead), otherwise that is reported as a violation. Sound up to the look-ahead of
+/// `same`; evidence must say so.
+pub fn bfs_by_key<S, K, A, F, G, H>(init: Vec<S>, actions: &[A], max_depth: Option<usize>, key: G, same: H, mut step: F) -> BfsResult<A, S>
+where
+    S: Clone,
+    K: Eq + Hash + Clone,
+    A: Clone,
+    F: FnMut(&S, &A) -> Result<Option<S>, String>,
+    G: Fn(&S) -> K,
+    H: Fn(&S, &S) -> bool,
+{
+    let mut index: HashMap<K, usize> = HashMap::new();
+    let mut states: Vec<S> = Vec::new();
+    let mut parent: Vec<(usize, usize)> = Vec::new();
+    let mut frontier: Vec<usize> = Vec::new();
+    for s in init {
+        let k = key(&s);
+        if !index.contains_key(&k) {
+            index.insert(k, states.len());
+            frontier.push(states.len());
+            states.push(s);
+            parent.push((usize::MAX, usize::MAX));
+        }
+    }
+    let mut transitions = 0u64;
+    let mut depth = 0usize;
+    let mut fixpoint = true;
+    let path_to = |parent: &Vec<(usize, usize)>, mut p: usize, last: &A| {
+        let mut path = vec![last.clone()];
+        while parent[p].0 != usize::MAX {
+            path.push(actions[parent[p].1].clone());
+            p = parent[p].0;
+        }
+        path.reverse();
+        path
+    };
+    while !frontier.is_empty() {
+        if let Some(md) = max_depth {
+            if depth >= md {
+                fixpoint = false;
+                break;
+            }
+        }
+        let mut next = Vec::new();
+        for &si in &frontier {
+            for (ai, a) in actions.iter().enumerate() {
+                let cur = states[si].clone();
+                match step(&cur, a) {
+                    Ok(None) => {}
+                    Ok(Some(n)) => {
+                        transitions += 1;
+                        let k = key(&n);
+                        match index.get(&k) {
+                            None => {
+                                index.insert(k, states.len());
+                                next.push(states.len());
+                                states.push(n);
+                                parent.push((si, ai));
+                            }
+                            Some(&old) => {
+                                if !same(&states[old], &n) {
+                                    let path = path_to(&parent, si, a);
+                                    return BfsResult { states: states.len() as u64, all_states: states, transitions, max_depth: depth + 1, fixpoint: false, violation: Some((path, "two paths to the same reference state lead to objects that behave differently".into())) };
+                                }
+                            }
+                        }
+                    }
+                    Err(msg) => {
+                        transitions += 1;
+                        let path = path_to(&parent, si, a);
+                        return BfsResult { states: states.len() as u64, all_states: states, transitions, max_depth: depth + 1, fixpoint: false, violation: Some((path, msg)) };
+                    }
+                }
+            }
+        }
+        if !next.is_empty() {
+            depth += 1;
+        }
+        frontier = next;
+    }
+    BfsResult { states: states.len() as u64, all_states: states, transitions, max_depth: depth, fixpoint, violation: None }
+}
